@@ -8,7 +8,8 @@ try:
     diffs = []
     for i in range(0, len(triples), 3):
         rel, old, new = triples[i:i+3]
-        src = open(os.path.join("/repo", rel)).read()
+        bpath = os.path.join(tmp, "b", rel)
+        src = open(bpath if os.path.exists(bpath) else os.path.join("/repo", rel)).read()
         if src.count(old) != 1:
             sys.exit(f"{rel}: pattern found {src.count(old)} times")
         os.makedirs(os.path.join(tmp, "b", os.path.dirname(rel)), exist_ok=True)
